@@ -33,6 +33,8 @@ def run(ctx):
   locks = lock_names(ctx)
   stores, acc = store_accesses(prog, 'config', ['_OPERATIVE_CONFIG', '_SINGLETONS'])
 
+  from .common import factory_state_rule
+  factory_state_rule(ctx, 'C18.lockset')
   # ---- C18.lockset
   op = [a for a in acc if a.store == '_OPERATIVE_CONFIG' and a.kind != 'init']
   ctx.expect_at_least('access sites of the operative record', len(op), 2)
